@@ -715,7 +715,9 @@ class PeerConnection(DataConnection):
             of data is received
         """
         bytes_received = 0
-        while True:
+        # Nothing will be received if there are no bytes left (empty file or
+        # file that is already complete): don't wait for data
+        while bytes_received < filesize:
             bytes_to_read = await self.download_rate_limiter.take_tokens()
             data = await self.receive_data(bytes_to_read)
             if data is None:
@@ -725,10 +727,7 @@ class PeerConnection(DataConnection):
             if callback is not None:
                 callback(data)
 
-            # Check if all data received and return
             bytes_received += len(data)
-            if bytes_received >= filesize:
-                return
 
     async def send_data(self, data: bytes):
         await self._send(data, timeout=TRANSFER_TIMEOUT)
